@@ -388,6 +388,17 @@ func (in *Interp) binop(op token.Token, t types.Type, x, y value) value {
 	if xs || ys {
 		return in.symBinop(op, x, y)
 	}
+	if xf, ok := x.(symFloat); ok {
+		return in.symFloatCmp(op, xf, y)
+	}
+	if yf, ok := y.(symFloat); ok {
+		// mirror the comparison
+		m := map[token.Token]token.Token{token.LSS: token.GTR, token.GTR: token.LSS, token.LEQ: token.GEQ, token.GEQ: token.LEQ}
+		if mo, ok := m[op]; ok {
+			return in.symFloatCmp(mo, yf, x)
+		}
+		unsupported("float op %s on symbolic float", op)
+	}
 	if isStr(x) {
 		_, a := x.(symString)
 		_, b := y.(symString)
@@ -418,6 +429,30 @@ func (in *Interp) binop(op token.Token, t types.Type, x, y value) value {
 		}
 	}
 	return binopConcrete(op, t, x, y)
+}
+
+// symFloatCmp compares num/div with an integer-valued concrete float.
+func (in *Interp) symFloatCmp(op token.Token, x symFloat, y value) value {
+	c, ok := y.(float64)
+	if !ok || c != float64(int64(c)) || c > 1e15 || c < -1e15 {
+		unsupported("comparison of symbolic float with %v", y)
+	}
+	// num/div < c  <=>  num < c*div   (div > 0, exact in integers)
+	rhs := in.ts.Const(64, uint64(int64(c)*x.div))
+	var t *term.Term
+	switch op {
+	case token.LSS:
+		t = in.ts.Bin(term.OpSLt, x.num, rhs)
+	case token.LEQ:
+		t = in.ts.Bin(term.OpSLe, x.num, rhs)
+	case token.GTR:
+		t = in.ts.Bin(term.OpSLt, rhs, x.num)
+	case token.GEQ:
+		t = in.ts.Bin(term.OpSLe, rhs, x.num)
+	default:
+		unsupported("float op %s on symbolic float", op)
+	}
+	return in.fromTerm(t, types.Bool)
 }
 
 func kindSignedVal(v value) bool {
@@ -544,6 +579,9 @@ func (in *Interp) unop(fr *frame, instr *ssa.UnOp, x value) value {
 			return in.loadSymAddr(p)
 		}
 		unsupported("load through %T", x)
+	}
+	if f, ok := x.(symFloat); ok && instr.Op == token.SUB {
+		return symFloat{num: in.ts.Un(term.OpNeg, f.num), div: f.div}
 	}
 	if s, ok := x.(*Sym); ok {
 		switch instr.Op {
@@ -1036,12 +1074,31 @@ func (in *Interp) conv(fr *frame, t_dst, t_src types.Type, x value) value {
 			return mkString(b)
 		}
 		switch kd {
-		case types.Float32, types.Float64, types.Complex64, types.Complex128:
-			unsupported("symbolic int -> float conversion")
+		case types.Float64:
+			return symFloat{num: in.to64(x), div: 1}
+		case types.Float32, types.Complex64, types.Complex128:
+			unsupported("symbolic int -> float32/complex conversion")
 		case types.UnsafePointer:
 			unsupported("symbolic int -> unsafe.Pointer")
 		}
 		return in.fromTerm(in.convInt(x, kd), kd)
+	case symFloat:
+		kd, ok := basicKind(ut_dst)
+		if !ok {
+			unsupported("conversion of symbolic float to %s", t_dst)
+		}
+		switch kd {
+		case types.Float64:
+			return x
+		case types.Int, types.Int64, types.Int32, types.Int16, types.Int8, types.Uint, types.Uint64, types.Uint32:
+			q := x.num
+			if x.div != 1 {
+				q = in.ts.Bin(term.OpSDiv, x.num, in.ts.Const(64, uint64(x.div)))
+			}
+			s64 := &Sym{T: q, K: types.Int64}
+			return in.fromTerm(in.convInt(s64, kd), kd)
+		}
+		unsupported("conversion of symbolic float to %s", t_dst)
 	case symString:
 		switch d := ut_dst.(type) {
 		case *types.Basic:
